@@ -92,7 +92,8 @@ def run(ctx):
             for a, b, lab in zip(Ls, Lb, ('L0vv', 'Lss', 'Lsv', 'L1vv')):
                 dev = np.abs(np.asarray(a) - np.asarray(b)).max()
                 if not np.all(np.isfinite(b)) or dev > 1e-7 * sc:
-                    ctx.violation('range-dependent:%s:%s' % (lab, name),
+                    nonuni = len(small.sitelist) > 1 and (np.ptp(ds['eneS']) > 1e-12 or np.ptp(ds['preS']) > 1e-12)
+                    ctx.violation('range-dependent:%s:%s%s' % (lab, name, ':nonuniform-solute-sites' if nonuni else ''),
                                   '%s changes by %.3g (scale %.3g) between thermodynamic range %d and %d on %s with the same tag data'
                                   % (lab, dev, sc, N, N + 1, name), dict(rep, small=np.asarray(a).tolist(), big=np.asarray(b).tolist()))
             if exact:
